@@ -1,6 +1,73 @@
-From Coq Require Import ZArith Bool.
-From NPS Require Import K_rle.
+From Coq Require Import ZArith Bool List Lia ZifyBool.
+From NPS Require Import ListAux PySlice NumpySem BuildIdx RLE RLEOps RLE2d Kernels K_rle.
+Import ListNotations.
 Open Scope Z_scope.
+(* Tie 1 for C14-C17: scalar arithmetic of runlengtharray.py re-translated from the CURRENT source = the definitions of Model/RLEOps.v and
+   Model/RLE2d.v that the theorems are about.  The value lemmas are decision procedures (case split on every test, then congruence of
+   the arithmetic with lia at the leaves), so equivalent rewrites of the code do not break them. *)
+Ltac same := match goal with |- ?a = ?a => reflexivity | |- _ => solve [lia] | |- _ => f_equal; same end.
+
 (* RunLengthArray._get_position: the negative wrap of the index, as in Model/RLEOps.v get_position *)
 Lemma tie_rle_wrap idx n : gen_rle_wrap idx n = (if idx <? 0 then n + idx else idx).
-Proof. reflexivity. Qed.
+Proof. unfold gen_rle_wrap. brk; lia. Qed.
+
+Remark map2_snd_only {X Y W} (g : Y -> W) : forall (l : list X) (l' : list Y), length l = length l' -> map2 (fun _ y => g y) l l' = map g l'.
+Proof. induction l as [|x l IH]; intros [|y l'] H; cbn in *; try discriminate; [reflexivity|]. f_equal. apply IH. lia. Qed.
+Remark map2_fst_only {X Y W} (g : X -> W) : forall (l : list X) (l' : list Y), length l = length l' -> map2 (fun x _ => g x) l l' = map g l.
+Proof. induction l as [|x l IH]; intros [|y l'] H; cbn in *; try discriminate; [reflexivity|]. f_equal. apply IH. lia. Qed.
+Remark map2_ext {X Y W} (f g : X -> Y -> W) : (forall x y, f x y = g x y) -> forall l l', map2 f l l' = map2 g l l'.
+Proof. intros H. induction l as [|x l IH]; intros [|y l']; cbn; try reflexivity. now rewrite H, IH. Qed.
+
+(* RunLengthArray._get_slice: which window is cut out (None: the empty result), from slice.indices and the step *)
+Lemma tie_rle_slice_bounds s0 e0 (st : option Z) :
+  gen_rle_slice_bounds s0 e0 st =
+  let step := match st with None => 1 | Some k => k end in
+  let '(s, e) := if step <? 0 then (e0 + 1, s0 + 1) else (s0, e0) in
+  if s >=? e then None else Some (s, e).
+Proof. unfold gen_rle_slice_bounds. destruct st as [k|]; cbv zeta; brk; try lia; try reflexivity; same. Qed.
+Lemma tie_rle_get_slice (A : Type) (eqb : A -> A -> bool) (r : rla A) (sl : pyslice) : step_of sl <> 0 ->
+  get_slice A eqb r sl =
+  match gen_rle_slice_bounds (py_start (rl_len r) sl) (py_stop (rl_len r) sl) (sl_step sl) with
+  | None => Ok ([0], [])
+  | Some (s, e) => Ok (if step_of sl =? 1 then start_to_end A r s e else step_subset A eqb (start_to_end A r s e) (step_of sl))
+  end.
+Proof.
+  intros Hk. rewrite tie_rle_slice_bounds. unfold get_slice. replace (step_of sl =? 0) with false by lia.
+  unfold step_of in *. cbv zeta. destruct (match sl_step sl with Some k => k | None => 1 end <? 0).
+  - destruct (py_stop _ _ + 1 >=? py_start _ _ + 1); reflexivity.
+  - destruct (py_start _ _ >=? py_stop _ _); reflexivity.
+Qed.
+
+(* RunLengthArray._step_subset: the new position of every boundary *)
+Lemma tie_rle_step_idx x xr lst step : gen_rle_step_idx x xr lst step = ((if step <? 0 then lst - xr else x) + Z.abs step - 1) / Z.abs step.
+Proof. unfold gen_rle_step_idx. cbv zeta. brk; try lia; same. Qed.
+Lemma tie_rle_step_subset (A : Type) (eqb : A -> A -> bool) (r : rla A) (step : Z) :
+  step_subset A eqb r step =
+  let idx := map2 (fun x xr => gen_rle_step_idx x xr (last (fst r) 0) step) (fst r) (rev (fst r)) in
+  let '(ev, vs) := remove_empty A idx (if step <? 0 then rev (snd r) else snd r) in
+  join_runs A eqb ev vs.
+Proof.
+  cbv zeta. rewrite (map2_ext _ _ (fun x xr => tie_rle_step_idx x xr (last (fst r) 0) step)).
+  unfold step_subset. destruct r as [ev vs]. cbn [fst snd]. destruct (step <? 0) eqn:E.
+  - rewrite (map2_snd_only (fun xr => (last ev 0 - xr + Z.abs step - 1) / Z.abs step)) by now rewrite rev_length.
+    rewrite map_map. reflexivity.
+  - rewrite (map2_fst_only (fun x => (x + Z.abs step - 1) / Z.abs step)) by now rewrite rev_length. reflexivity.
+Qed.
+
+(* IndexableMixin._step_subset (rows of a 2-D / ragged run-length array) *)
+Lemma tie_rl2_step_idx x xr lst step :
+  gen_rl2_step_idx x xr lst step = let i := if step <? 0 then lst - xr else x in if Z.abs step =? 1 then i else (i + Z.abs step - 1) / Z.abs step.
+Proof. unfold gen_rl2_step_idx. cbv zeta. brk; try lia; same. Qed.
+Lemma tie_rl2_step_subset_row (step : Z) (ev vs : list Z) :
+  step_subset_row step ev vs =
+  remove_empty_row (map2 (fun x xr => gen_rl2_step_idx x xr (last ev 0) step) ev (rev ev)) (if step <? 0 then rev vs else vs).
+Proof.
+  rewrite (map2_ext _ _ (fun x xr => tie_rl2_step_idx x xr (last ev 0) step)). cbv zeta.
+  unfold step_subset_row. destruct (step <? 0) eqn:E.
+  - destruct (Z.abs step =? 1) eqn:E1.
+    + rewrite (map2_snd_only (fun xr => last ev 0 - xr)) by now rewrite rev_length. reflexivity.
+    + rewrite (map2_snd_only (fun xr => (last ev 0 - xr + Z.abs step - 1) / Z.abs step)) by now rewrite rev_length. now rewrite map_map.
+  - destruct (Z.abs step =? 1) eqn:E1.
+    + rewrite (map2_fst_only (fun x => x)) by now rewrite rev_length. now rewrite map_id.
+    + rewrite (map2_fst_only (fun x => (x + Z.abs step - 1) / Z.abs step)) by now rewrite rev_length. reflexivity.
+Qed.
